@@ -12,7 +12,7 @@
 \*   chol      C11  factor of an SPD matrix: lower, positive diagonal, L L^T = A, slice = Matrix
 \*   reject    C11  not positive definite input must be rejected (panic), never a value
 \*   tri       C11  forward / backward substitution invert triangular systems
-EXTENDS Linalg, Json, IOUtils
+EXTENDS Linalg, Json, IOUtils, FiniteSets
 Rec == ndJsonDeserialize(IOEnv.TRACE)
 VARIABLE l
 Init == l = 1
@@ -49,10 +49,15 @@ Chol(ev) == /\ ev.out = "ok" /\ ev.same = TRUE /\ AllFin(ev.llt)
             /\ ValsSq(ev.n, ev.llt) = IntSq(ev.n, ev.a)
             /\ (AllFin(ev.l) => LET L == ValsSq(ev.n, ev.l) IN MatMul(L, TransposeM(L)) = IntSq(ev.n, ev.a))
 
-\* must be rejected: a non-positive diagonal entry or a negative leading principal minor (indefinite by a
-\* margin); a singular positive semi-definite matrix sits on the rounding boundary and may go either way
-MustReject(A) == (\E i \in 1..N(A) : ~RLt(RZ, A[i][i])) \/ (\E k \in 1..N(A) : RLt(LeadingMinor(A, k), RZ))
-Reject(ev) == MustReject(IntSq(ev.n, ev.a)) => ev.out = "panic"
+\* must be rejected: some principal minor is negative (indefinite by a margin) or a diagonal entry is not
+\* positive; a singular positive semi-definite matrix sits on the rounding boundary and may go either way,
+\* but if a factor is returned for it, it must be a finite lower-triangular L with L L^T = A
+PrincipalMinor(A, S) == LET idx == CHOOSE f \in [1..Cardinality(S) -> S] : \A a, b \in 1..Cardinality(S) : a < b => f[a] < f[b] IN
+                        Det([i \in 1..Cardinality(S) |-> [j \in 1..Cardinality(S) |-> A[idx[i]][idx[j]]]])
+MustReject(A) == (\E i \in 1..N(A) : ~RLt(RZ, A[i][i])) \/ (\E S \in (SUBSET (1..N(A))) \ {{}} : RLt(PrincipalMinor(A, S), RZ))
+Reject(ev) == IF MustReject(IntSq(ev.n, ev.a)) THEN ev.out = "panic"
+              ELSE IF ev.out = "panic" THEN TRUE        \* (IF, not \/: TLC evaluates every disjunct of a next-state relation)
+                   ELSE AllFin(ev.llt) /\ ValsSq(ev.n, ev.llt) = IntSq(ev.n, ev.a) /\ \A i \in 1..Len(ev.l) : ev.l[i].q > 0
 
 Tri(ev) == /\ ev.out = "ok" /\ AllFin(ev.x)
            /\ LET T == IntSq(ev.n, ev.a)
